@@ -131,6 +131,7 @@ fn any_offset(size: usize) -> usize {
 // --------------------------------------------------------------------------------- get_value
 
 // FN: SliceRef::subslice, SliceRef::get_value, Element::read, ElementRef::load
+// ALSO: C02
 #[kani::proof]
 #[kani::unwind(9)]
 fn c15_get_value_plain() {
@@ -177,6 +178,7 @@ fn c15_get_value_atomic() {
 // --------------------------------------------------------------------------------- set_value
 
 // FN: SliceRefMut::subslice_mut, SliceRefMut::set_value, Element::read_mut, ElementRefMut::store
+// ALSO: C02
 #[kani::proof]
 #[kani::unwind(9)]
 fn c15_set_value_plain() {
@@ -260,6 +262,7 @@ fn c15_set_then_get_roundtrip() {
 /// `subslice` never hands out a wider view: an out-of-range start panics (the `expect`).
 // EXPECT-PANIC: index out of bounds
 // FN: SliceRef::subslice
+// ALSO: C02
 #[kani::proof]
 #[kani::should_panic]
 fn c15_subslice_out_of_range_panics() {
